@@ -4,6 +4,8 @@ from loki.transformations.array_indexing import (
     resolve_vector_notation, add_explicit_array_dimensions, remove_explicit_array_dimensions,
     normalize_range_indexing, normalize_array_shape_and_access
 )
+from loki import Dimension
+from loki.transformations.array_indexing import resolve_vector_dimension
 from vlib.tv import Case
 
 
@@ -23,6 +25,53 @@ def add_rm(p):
 def add_then_rvn(p):
     add_explicit_array_dimensions(p.entry)
     resolve_vector_notation(p.entry)
+
+
+def on_kernel(fn):
+    def f(p):
+        k = [r for m in p.modules for r in m.subroutines if r.name.lower() == 'kern'][0]
+        fn(k)
+    f.__name__ = fn.__name__
+    return f
+
+
+def rvd_second(r):
+    resolve_vector_dimension(r, dimension=Dimension(name='d2', size='m', index='jm', bounds=('ms', 'me')))
+
+
+def rvd_first(r):
+    resolve_vector_dimension(r, dimension=Dimension(name='d1', size='n', index='jn', bounds=('ns', 'ne')))
+
+
+def rvn_r(r):
+    resolve_vector_notation(r)
+
+
+def rvn_noimpl_r(r):
+    resolve_vector_notation(r, resolve_implicit_rhs_ranges=False)
+
+
+ASSUMED = """
+module am
+contains
+  subroutine kern(n, m, ns, ne, ms, me, a, b, s)
+    integer, intent(in) :: n, m, ns, ne, ms, me
+    real, intent(inout) :: a({ad})
+    real, intent(in) :: b({bd})
+    real, intent(in) :: s
+    integer :: jn, jm
+{body}
+  end subroutine kern
+
+  subroutine k(n, m, a, b, s)
+    integer, intent(in) :: n, m
+    real, intent(inout) :: a(n, m)
+    real, intent(in) :: b(n, m)
+    real, intent(in) :: s
+    call kern(n, m, 1, n, 1, m, a, b, s)
+  end subroutine k
+end module am
+"""
 
 
 def nri(p):
@@ -100,4 +149,22 @@ def cases():
         applies=R + (('nasa', nasa),), **D2)
     one('2d-partial-ranges', '  a(2:n, 1:m-1) = b(1:n-1, 2:m)', ad='n, m', bd='n, m', applies=R, **D2)
     one('2d-mixed-rank', '  do j=1,m\n    a(1:n, j) = b(1:n, 1)\n  end do', ad='n, m', bd='n, m', applies=R, **D2)
+    # partial resolution: assumed-shape arrays (a bare ':' cannot be qualified), single-dimension resolution, no implicit ranges
+    SQ = [{'n': 3, 'm': 3}, {'n': 2, 'm': 3}]
+    PART = (('rvn', on_kernel(rvn_r)), ('rvn-noimpl', on_kernel(rvn_noimpl_r)), ('rvd-dim2', on_kernel(rvd_second)), ('rvd-dim1', on_kernel(rvd_first)))
+    bodies = {
+        'assumed-second-range': '    a(:, 2:m) = 3.0*b(:, 1:m-1)',
+        'assumed-first-range': '    a(2:n, :) = b(1:n-1, :) + s',
+        'explicit-bounds-vars': '    a(1:n, ms:me) = 2.0*b(1:n, ms:me)',
+        'explicit-bounds-vars-dim1': '    a(ns:ne, 1:m) = b(ns:ne, 1:m) - s',
+        'both-bounds-vars': '    a(ns:ne, ms:me) = b(ns:ne, ms:me)*s',
+        'fixed-then-range': '    a(1, ms:me) = b(n, ms:me)',
+        'shifted-second': '    a(1:n, 2:m) = b(1:n, 1:m-1)',
+    }
+    for bn, body in bodies.items():
+        for shape, ad in (('assumed', ':, :'), ('explicit', 'n, m')):
+            if bn.startswith('assumed') and shape == 'explicit':
+                continue
+            for an, fn in PART:
+                out.append(Case(f'partial/{bn}/{shape}/{an}', ASSUMED.format(ad=ad, bd=ad, body=body), 'k', SQ, fn, 'array-notation'))
     return out
